@@ -2,10 +2,11 @@
 """prints the markdown table of seeded changes (from seeded/*/meta.json)"""
 import glob, json, os
 rows = []
+cross = json.load(open("/verif/selftest/cross.json"))
 for d in sorted(glob.glob("/verif/seeded/*")):
     m = json.load(open(d + "/meta.json"))
     s = (m.get("summary") or "").replace("\n", " ").replace("|", "/")
     n = (m.get("needs") or "").replace("\n", " ").replace("|", "/")
-    rows.append("| %s | %s | %s | %s |" % (os.path.basename(d), s[:170] + ("..." if len(s) > 170 else ""), n[:130] + ("..." if len(n) > 130 else ""), m.get("detected_short", "detected")))
-print("| id | change | needs | result |\n|----|--------|-------|--------|")
+    rows.append("| %s | %s | %s | %s | %s |" % (os.path.basename(d), s[:170] + ("..." if len(s) > 170 else ""), n[:130] + ("..." if len(n) > 130 else ""), m.get("detected_short", "detected"), ", ".join(cross.get(os.path.basename(d), [])) or "-"))
+print("| id | change | needs | result by its own property's check | mismatches also attributed to |\n|----|--------|-------|--------|------|")
 print("\n".join(rows))
